@@ -737,6 +737,15 @@ class NetCDF4(FileHandler):
             for dim in group.dimensions
         }
 
+        # A variable may also live on a dimension that is defined in an
+        # ancestor group only (dimensions are visible in all sub groups):
+        for var in group.variables.values():
+            for dim in var.get_dims():
+                if dim.name not in dim_map:
+                    ancestor = dim.group().path.strip("/")
+                    dim_map[dim.name] = \
+                        ancestor + "/" + dim.name if ancestor else dim.name
+
         # Load variables:
         try:
             for var_name, var in group.variables.items():
